@@ -55,7 +55,10 @@ func init() {
 			}
 			for n := 1; n <= 4; n++ {
 				for d := 1; d <= 4; d++ {
-					cases = append(cases, Case{ID: fmt.Sprintf("ratio-literal-total n=%d d=%d", n, d), Pkg: "internal/parser", Fn: "ZZC13Ratio", Args: []string{fmt.Sprint(n), fmt.Sprint(d), "11"}, Tag: "ratio-literal"})
+					// every spelling the RATIO token allows: a blank before the slash, after it, both, none
+					for _, blanks := range []string{"11", "10", "01", "00"} {
+						cases = append(cases, Case{ID: fmt.Sprintf("ratio-literal-total n=%d d=%d blanks=%s", n, d, blanks), Pkg: "internal/parser", Fn: "ZZC13Ratio", Args: []string{fmt.Sprint(n), fmt.Sprint(d), blanks}, Tag: "ratio-literal"})
+					}
 				}
 			}
 			lay := utf8Layouts(3, 6)
